@@ -6,11 +6,11 @@ CLAIMS = {
  'C01': dict(
   text="Deductive proof (unbounded) of representation-invariant preservation and FIFO position/count postconditions for the LinkBuffer methods under contract; every obligation is generated from the go/ssa of /repo and discharged by an SMT solver.",
   note="Proved: wf preservation, exact consumed/flushed/pending stream positions and both counters, zero-copy result regions, failing reads change nothing, Close, readCopy, GetBytes, Bytes, Until, for all sizes/capacities/chain shapes. Assumed: allocator contracts (malloc/free/dirtmake), sync.Pool freshness, int/int64 mathematical, sequential use per buffer.",
-  nd=["byte contents of copying reads beyond 'copied from the region at the stream position' (memory is modelled per region, not per history)", "Slice/Append/WriteDirect/WriteBuffer (not under contract)", "concurrent reader/poller use of one buffer (sequential contracts; the connection layer's split discipline is assumed)"]),
+  nd=["byte contents of copying reads beyond 'copied from the region at the stream position' (memory is modelled per region, not per history)", "Append/WriteDirect/WriteBuffer (not under contract)", "concurrent reader/poller use of one buffer (sequential contracts; the connection layer's split discipline is assumed)"]),
  'C02': dict(
   text="Deductive proof that zero-copy results (Next/Peek/ReadBinary/GetBytes/Malloc regions) are regions of nodes that stay owned and unrecycled until Release/Close of their buffer; Refer takes exactly one reference on the root block.",
-  note="Proved for the methods under contract: result regions lie inside live nodes, nodes with exposed regions are flagged read-only, Release recycles only consumed nodes, peek-cache validity, Refer's refcount rule. Assumed: as C01.",
-  nd=["Slice readers end-to-end (Slice itself is not under contract; only Refer/node.Release are)", "use-after-Release by the caller (a caller obligation, not netpoll's)"]),
+  note="Proved for the methods under contract: result regions lie inside live nodes, nodes with exposed regions are flagged read-only, Release recycles only consumed nodes, peek-cache validity, Refer's refcount rule, Slice (parent side: exact consumption, one counted reference per view, exposed nodes flagged, implicit Release). Assumed: as C01.",
+  nd=["operations on Slice readers themselves (the view buffer returned by Slice is not described by wf; the parent side of Slice, Refer and node.Release are verified)", "use-after-Release by the caller (a caller obligation, not netpoll's)"]),
  'C03': dict(
   text="Deductive proof of the pool discipline: every free() is of a block the buffer owns in state 'handed out', at most once (ghost pool state machine 0/1/2), and caller memory (ghost pool state 0) is never freed or written.",
   note="Proved: malloc/free pairing on Release, Close, closeBuffer, growth, readBinary's private copies never enter caches; Refer/node.Release refcount balance per call. Assumed: mcache contract (a block is either in the pool or handed out once).",
